@@ -844,7 +844,9 @@ Proof.
     { unfold st3, pg_final_of. rewrite pg_keys_with_outcomes. apply pg_keys_prepare. }
     assert (Hst : pg_find k (pg_store st3 (pg_purge body st2 owned [])) = pg_purged body k).
     { rewrite (pg_find_store _ _ _ ND). unfold st3, pg_final_of. fold st2.
-      rewrite pg_find_with_outcomes. unfold st2 at 2. rewrite (pg_prepare_unselected _ _ _ _ _ _ Hns).
+      rewrite pg_find_with_outcomes.
+      assert (Hb2 : pg_find k (st_items st2) = pg_base body owned now k) by (apply pg_prepare_unselected; exact Hns).
+      rewrite Hb2.
       unfold pg_base. apply pg_mem_In in Ho. rewrite Ho, Hb. simpl.
       rewrite pg_out_of_run.
       assert (Hnp : pg_mem k (pg_plan lc st2 selected now) = false).
@@ -879,6 +881,36 @@ Qed.
 
 (* the parent's outcome is final exactly when every selected sub-handler has finished; otherwise it is the
    non-final "children retry" which keeps the parent unfinished; everything in the sub-state is referenced *)
+Lemma pg_parent_outcome_fields : forall result sr deeper,
+  let o := fst (pg_parent_outcome result sr deeper) in
+  o_final o = sr_done sr /\ (sr_done sr = true -> o_exc o = None) /\ (sr_done sr = false -> o_exc o = Some "None") /\ o_subrefs o = sr_keys sr ++ deeper.
+Proof. intros. subst o. unfold pg_parent_outcome. destruct (sr_done sr); cbn; repeat split; congruence. Qed.
+
+Lemma pg_sub_done_spec : forall body reason so ss lc now orc,
+  let sr := pg_sub_execute body reason so ss lc now orc in
+  sr_done sr = true ->
+  forall s, In s ss -> exists h, pg_find s (st_items (sr_final sr)) = Some h /\ pg_finished h = true.
+Proof.
+  intros body reason so ss lc now orc sr Hd s Hs. subst sr. unfold pg_sub_execute in *. cbn [sr_done sr_final] in *.
+  set (st := pg_with_handlers _ ss now) in *.
+  set (outs := pg_outs_of_run _) in *.
+  assert (ND : NoDup (map fst (st_items (pg_with_outcomes st outs now)))).
+  { rewrite pg_keys_with_outcomes. unfold st. rewrite pg_with_handlers_fold. apply pg_keys_wh_fold.
+    rewrite pg_keys_with_purpose. apply pg_keys_from_storage. }
+  rewrite (pg_done_spec _ ND) in Hd.
+  assert (Hst : exists h, pg_find s (st_items st) = Some h /\ h_active h = true).
+  { unfold st. rewrite pg_find_with_handlers. unfold pg_wh_spec. apply pg_mem_In in Hs. rewrite Hs.
+    eexists. split; [reflexivity|]. now destruct (pg_find s _). }
+  destruct Hst as (h & Hf & Ha).
+  pose proof (pg_find_with_outcomes st outs now s) as E. rewrite Hf in E. cbn [option_map] in E.
+  eexists. split; [exact E|]. apply (Hd _ _ E). now destruct (pg_out_of s outs).
+Qed.
+
+Lemma pg_sub_keys : forall body reason so ss lc now orc,
+  sr_keys (pg_sub_execute body reason so ss lc now orc) =
+  map fst (st_items (sr_final (pg_sub_execute body reason so ss lc now orc))).
+Proof. reflexivity. Qed.
+
 Theorem children_keep_parent_open : forall body reason lc now fam leaf k n result so ss,
   fam k = Some (result, so, ss) ->
   let o := fst (pg_children_oracle body reason lc now fam leaf k n) in
@@ -889,26 +921,12 @@ Theorem children_keep_parent_open : forall body reason lc now fam leaf k n resul
   (o_final o = false -> o_exc o <> None) /\
   incl (map fst (st_items (sr_final sr))) (o_subrefs o).
 Proof.
-  intros * Hfam o sr. subst o. unfold pg_children_oracle. rewrite Hfam. fold sr. unfold pg_parent_outcome. simpl.
-  destruct (sr_done sr) eqn:Hd; simpl.
-  - split; [tauto|]. split; [|split; [discriminate|]].
-    + intros _. split; [reflexivity|]. intros s Hs.
-      unfold sr, pg_sub_execute in *. simpl in *.
-      set (st := pg_with_handlers _ ss now) in *.
-      set (outs := pg_outs_of_run _) in *.
-      assert (ND : NoDup (map fst (st_items (pg_with_outcomes st outs now)))).
-      { rewrite pg_keys_with_outcomes. unfold st. rewrite pg_with_handlers_fold. apply pg_keys_wh_fold.
-        rewrite pg_keys_with_purpose. apply pg_keys_from_storage. }
-      rewrite (pg_done_spec _ ND) in Hd.
-      assert (Hst : exists h, pg_find s (st_items st) = Some h /\ h_active h = true).
-      { unfold st. rewrite pg_find_with_handlers. unfold pg_wh_spec. apply pg_mem_In in Hs. rewrite Hs.
-        eexists. split; [reflexivity|]. now destruct (pg_find s _). }
-      destruct Hst as (h & Hf & Ha).
-      pose proof (pg_find_with_outcomes st outs now s) as E. rewrite Hf in E. simpl in E.
-      eexists. split; [exact E|]. apply (Hd _ _ E). now destruct (pg_out_of s outs).
-    + intros x Hx. rewrite app_nil_r. unfold sr. simpl. exact Hx.
-  - split; [split; discriminate|]. split; [discriminate|]. split; [discriminate|].
-    intros x Hx. rewrite app_nil_r. unfold sr. simpl. exact Hx.
+  intros * Hfam o sr. subst o. unfold pg_children_oracle. rewrite Hfam. fold sr.
+  destruct (pg_parent_outcome_fields result sr []) as (F1 & F2 & F3 & F4). cbv zeta in *.
+  rewrite F1, F4. split; [tauto|]. split; [|split].
+  - intros Hd. split; [now apply F2|]. now apply pg_sub_done_spec.
+  - intros Hd. rewrite (F3 Hd). discriminate.
+  - rewrite app_nil_r. unfold sr. rewrite pg_sub_keys. apply incl_refl.
 Qed.
 
 (* ------------------------------------------------------------------ restart: the in-memory state plays no role *)
@@ -956,3 +974,103 @@ Proof.
     unfold pg_outs_of_run, pg_run in Hk. rewrite map_map in Hk. apply in_map_iff in Hk. destruct Hk as (k' & E & Hk).
     inversion E. subst k'. apply pg_plan_spec in Hk. destruct Hk as (_ & h & Hf & _). unfold pg_has. now rewrite Hf.
 Qed.
+
+(* ------------------------------------------------------------------ witnesses: where the full statements are false of the faithful model *)
+Definition w_now : Z := 1000000000.
+Definition w_done (purpose : string) : pg_srec :=
+  mkPgRec (Some 990000000) (Some 990000000) None (Some purpose) (Some 1) (Some true) (Some false) None None.
+Definition w_retry (purpose : string) : pg_srec :=
+  mkPgRec (Some 990000000) None (Some 999875000) (Some purpose) (Some 1) (Some false) (Some false) (Some "later") None.
+Definition w_ok : pg_outcome := mkPgOut true None None None [].
+Definition w_tmp : pg_outcome := mkPgOut false (Some "later") (Some 1000000) None [].
+Definition w_orc (tmp : list pg_hid) : pg_oracle := fun k _ => (if pg_mem k tmp then w_tmp else w_ok, pg_no_effects).
+
+(* no handler selected while records of an abandoned cycle exist: last-handled is written, the records stay *)
+Theorem close_purges_refuted :
+  exists body owned reason lc now orc,
+    let r := pg_pipeline body owned reason [] lc now true orc in
+    pg_handler_reason reason = true /\ r_fho r = true /\ r_diffbase r = true /\
+    exists k, In k owned /\ pg_after body (r_patch r) k <> None.
+Proof.
+  exists [("a", w_retry "update")], ["a"], PRUpdate, LAsap, w_now, (w_orc []).
+  vm_compute. repeat split. exists "a". split; [now left|discriminate].
+Qed.
+
+(* supersession purge (an unselected record of another purpose is present): the recorded success of a selected
+   handler of the CURRENT purpose is dropped while the cycle stays open (finding F0201) *)
+Theorem open_keeps_records_refuted :
+  exists body owned reason selected lc now orc,
+    let r := pg_pipeline body owned reason selected lc now true orc in
+    pg_handler_reason reason = true /\ incl selected owned /\ pg_pure orc /\ r_done r = Some false /\
+    exists k, In k selected /\ pg_rec_finished (pg_find k body) = true /\ pg_after body (r_patch r) k = None.
+Proof.
+  exists [("a", w_done "update"); ("b", w_retry "create")], ["a"; "b"; "c"], PRUpdate, ["a"; "c"], LAsap, w_now, (w_orc ["c"]).
+  cbv zeta. split; [reflexivity|]. split; [|split; [intros k n; reflexivity|]].
+  - intros k [H|[H|[]]]; subst; simpl; tauto.
+  - vm_compute. split; [reflexivity|]. exists "a". repeat split. now left.
+Qed.
+
+(* the same purge drops the records of the sub-handlers of a handler that stays selected and keeps its own progress *)
+Definition w_parent : pg_srec :=
+  mkPgRec (Some 990000000) None (Some 1001000000) (Some "resume") (Some 1) (Some false) (Some false) (Some "None")
+          (Some ["p/s1"; "p/s2"]).
+Definition w_fam : pg_hid -> option (option Z * list pg_hid * list pg_hid) :=
+  fun k => if String.eqb k "p" then Some (None, ["p/s1"; "p/s2"], ["p/s1"; "p/s2"]) else None.
+
+Theorem supersession_drops_subrecords :
+  exists body owned reason selected lc now leaf,
+    let orc := pg_children_oracle body reason lc now w_fam leaf in
+    let r := pg_pipeline body owned reason selected lc now true orc in
+    incl selected owned /\ r_done r = Some false /\
+    (exists h, pg_find "p" (st_items (r_final r)) = Some h /\ h_retries h = 1 /\ h_purpose h = Some "update" /\
+               In "p/s1" (h_subrefs h)) /\
+    pg_rec_finished (pg_find "p/s1" body) = true /\ pg_after body (r_patch r) "p/s1" = None /\
+    pg_after body (r_patch r) "p" <> None.
+Proof.
+  exists [("p", w_parent); ("p/s1", w_done "resume"); ("p/s2", w_retry "resume"); ("q", w_retry "resume")],
+         ["p"; "q"; "u"], PRUpdate, ["p"; "u"], LAsap, w_now, (w_orc []).
+  cbv zeta. split.
+  - intros k [H|[H|[]]]; subst; simpl; tauto.
+  - vm_compute. split; [reflexivity|]. split; [|repeat split; discriminate].
+    eexists. split; [reflexivity|]. simpl. repeat split. now left.
+Qed.
+
+(* ------------------------------------------------------------------ non-vacuity *)
+Example ex_finished_skipped_due_invoked :
+  let r := pg_pipeline [("a", w_done "update"); ("b", w_retry "update")] ["a"; "b"] PRUpdate ["a"; "b"] LAll w_now true (w_orc []) in
+  r_invoked r = [("b", 1)] /\ r_fho r = true /\ r_diffbase r = true /\
+  pg_after [("a", w_done "update"); ("b", w_retry "update")] (r_patch r) "a" = None /\
+  pg_after [("a", w_done "update"); ("b", w_retry "update")] (r_patch r) "b" = None.
+Proof. vm_compute. repeat split. Qed.
+
+Example ex_open_cycle_keeps_progress :
+  let body := [("a", w_done "update"); ("b", w_retry "update")] in
+  let r := pg_pipeline body ["a"; "b"] PRUpdate ["a"; "b"] LAsap w_now true (w_orc ["b"]) in
+  r_invoked r = [("b", 1)] /\ r_done r = Some false /\ r_fho r = false /\ r_diffbase r = false /\
+  pg_after body (r_patch r) "a" = Some (w_done "update") /\ pg_find "a" (r_patch r) = None /\
+  r_delays r = [1000000] /\
+  option_map s_retries (pg_after body (r_patch r) "b") = Some (Some 2).
+Proof. vm_compute. repeat split. Qed.
+
+Example ex_sleeping_not_invoked :
+  let body := [("b", mkPgRec (Some 990000000) None (Some (w_now + 125000)) (Some "update") (Some 1) (Some false) (Some false) None None)] in
+  let r := pg_pipeline body ["b"] PRUpdate ["b"] LAll w_now true (w_orc []) in
+  r_invoked r = [] /\ r_done r = Some false /\ r_delays r = [125000] /\ r_patch r = [].
+Proof. vm_compute. repeat split. Qed.
+
+Example ex_children_retry_then_close :
+  let body := [("p", w_parent); ("p/s1", w_done "resume"); ("p/s2", w_retry "resume")] in
+  let fam := w_fam in
+  let open := pg_pipeline body ["p"] PRResume ["p"] LAll 1002000000 false (pg_children_oracle body PRResume LAll 1002000000 fam (w_orc ["p/s2"])) in
+  let closed := pg_pipeline body ["p"] PRResume ["p"] LAll 1002000000 false (pg_children_oracle body PRResume LAll 1002000000 fam (w_orc [])) in
+  r_invoked open = [("p", 1)] /\ r_sub open = [("p/s2", 1)] /\ r_done open = Some false /\
+  r_invoked closed = [("p", 1)] /\ r_sub closed = [("p/s2", 1)] /\ r_done closed = Some true /\
+  pg_after body (r_patch closed) "p/s1" = None /\ pg_after body (r_patch closed) "p/s2" = None /\
+  pg_after body (r_patch closed) "p" = None.
+Proof. vm_compute. repeat split. Qed.
+
+Example ex_supersession_hypotheses_satisfiable :
+  pg_has_extras (pg_prepare1 [("a", w_done "update"); ("b", w_retry "update")] ["a"; "b"; "d"] PRDelete ["a"; "d"] w_now) = true /\
+  pg_has_extras (pg_prepare [("a", w_done "update"); ("b", w_retry "update")] ["a"; "b"; "d"] PRDelete ["a"; "d"] w_now) = true /\
+  pg_changed (pg_hs_from_storage w_now (w_retry "update")) = false.
+Proof. vm_compute. repeat split. Qed.
